@@ -225,7 +225,9 @@ func TestC14(t *testing.T) {
 	// ---- hosts: every pair of host spellings (names, IPv4, bracketed IPv6, with and without ports) on a small path/query set ----
 	if r.WantLayer("hosts", true) {
 		hostSpellings := []string{"example.com", "example.com:8080", "example.com:80", "example.com:8081", "example.org", "a.example.com", "127.0.0.1", "127.0.0.1:3000", "127.0.0.2", "127.0.0.1:3001",
-			"[::1]", "[::2]", "[::1]:8080", "[::1]:9090", "[::2]:8080", "[2001:db8::1]", "[2001:db8::2]", "[2001:DB8::1]", "[2001:db8::1]:443", "[2001:db9::1]", "[fe80::1%25eth0]", "xn--mnchen-3ya.de", "localhost", "localhost:8080"}
+			"[::1]", "[::2]", "[::1]:8080", "[::1]:9090", "[::2]:8080", "[2001:db8::1]", "[2001:db8::2]", "[2001:DB8::1]", "[2001:db8::1]:443", "[2001:db9::1]", "[fe80::1%25eth0]", "xn--mnchen-3ya.de", "localhost", "localhost:8080",
+			// a host that ends in digits against the shorter host with those digits as its port: other authorities, however they are glued together
+			"node1", "node:1", "127.0.0.180", "127.0.0.1:80", "[::1]:80", "[::180]", "example.com8080"}
 		var hg []gridIRI
 		for si, sch := range []string{"https", "http"} {
 			for hi, h := range hostSpellings {
